@@ -56,7 +56,7 @@ SPECIAL_EXPECT = {
     'stop_iteration': ['StopIteration'], 'generator_raise': ['ValueError'], 'empty_message': ['ValueError'],
     'lowercase_message': ['ValueError'], 'multiline_message': ['ValueError'], 'braces_message': ['ValueError'],
     'os_error_args': ['FileNotFoundError', 'OSError'], 'assert_false': ['AssertionError'],
-    'stdout_close_then_print': ['ValueError'], 'del_builtin_use': ['TypeError'],
+    'stdout_close_then_print': ['ValueError'], 'del_builtin_use': ['TypeError'], 'many_inputs_then_fail': ['ZeroDivisionError'],
 }
 # special programs that END NORMALLY under CPython (the sandbox must record no failure)
 SPECIAL_NORMAL = {'stdout_close'}
@@ -71,7 +71,7 @@ SPECIAL_LINE = {
     'raise_class_not_instance': 1, 'raise_non_exception': 1, 'exception_group': 1, 'name_error': 1,
     'deep_traceback': 3, 'key_error_tuple': 2, 'unicode_error': 1, 'stop_iteration': 1, 'generator_raise': 3,
     'empty_message': 1, 'lowercase_message': 1, 'multiline_message': 1, 'braces_message': 1, 'os_error_args': 1,
-    'assert_false': 1, 'del_builtin_use': 2, 'stdout_close_then_print': 4,
+    'assert_false': 1, 'del_builtin_use': 2, 'stdout_close_then_print': 4, 'many_inputs_then_fail': 4,
 }
 
 
